@@ -35,7 +35,8 @@ fn tuple_kinds() -> Vec<(&'static str, Kind)> {
     ]
 }
 
-const IDENT_POOL: [&str; 6] = ["Hello2You", "HTTPServer", "A1", "Utf8To16", "X_y", "Ab2c3"];
+// identifiers with `_` directly before a digit are left out: whether that digit run is "split off" once more is not settled by the statement
+const IDENT_POOL: [&str; 7] = ["Hello2You", "HTTPServer", "A1", "Utf8To16", "X_y", "Ab2c3", "V1"];
 
 fn alphabet(n: usize) -> Vec<Dev> {
     let mut d: Vec<Dev> = Vec::new();
